@@ -370,7 +370,9 @@ def parse_global(p, mod):
         elif v in ('alias', 'ifunc'):
             p.next()
             while p.peek()[1] in LINKAGE: p.next()
-            t = p.type(); p.expect(','); tv = p.tyval()
+            t = p.type(); p.expect(',')
+            if p.peek()[1] in ('bitcast', 'getelementptr', 'addrspacecast', 'inttoptr'): tv = p.value(PTR(t))
+            else: tv = p.tyval()
             x = tv
             while x.k == 'cexpr': x = x.ops[0]
             mod.aliases[name] = x.v
